@@ -144,6 +144,15 @@ SHAPES = [
     {"k": "cpp_member", "doc": 1, "types": ["int"], "params": ["a"], "declgap": "# the implementation follows", "impl": "macro"},
     {"k": "cpp_constructor", "doc": 1, "types": ["int"], "params": ["x"], "declgap": "#[[ bracket ]]"},
     {"k": "cpp_constructor", "doc": 0, "types": ["int", "args"], "params": ["x"], "declgap": "# one\n\n# two"},
+    # the doc text talks about what the generated parts are called
+    {"k": "cpp_member", "doc": 1, "impl": "macro", "types": ["int"], "params": ["a"],
+     "doctext": ["Registers a user-defined macro for later.", "", "A note: this is not a function."]},
+    {"k": "cpp_constructor", "doc": 1, "impl": "macro", "types": [], "params": [], "doctext": ["Macro constructor, see the macro note."]},
+    {"k": "cpp_member", "doc": 1, "types": ["int"], "params": ["a"], "doctext": ["Not a macro although it says macro."]},
+]
+ATTR_SHAPES = [      # (class name, attribute name, default): defaults spelled like the attribute or like a class
+    ("Channel", "level", "level"), ("Channel", "kind", "Channel"), ("Channel", "other", "Base"), ("Channel", "Channel", "v"),
+    ("Channel", "same", "same"),
 ]
 
 
@@ -156,6 +165,13 @@ def shape_jobs():
         for ctx_ in ([c1, sh], [c0, m0, cl, sh], [c1, sh, cl, m0], [c1, c0, sh], [c0, at, sh, cl, at],
                      [c1, sh, {"k": "cmake_parse_arguments"}, cl, dict(sh, doc=1 - sh["doc"])]):
             jobs.append([dict(e) for e in ctx_])
+    for cn, an, dv in ATTR_SHAPES:
+        for doc in (1, 0):
+            cls = {"k": "cpp_class", "doc": 1, "name": cn, "bases": ["Base"]}
+            at = {"k": "cpp_attr", "doc": doc, "name": an, "default": dv}
+            jobs.append([cls, dict(at)])
+            jobs.append([cls, dict(ATTRS[1]), dict(at), dict(ATTRS[0])])
+            jobs.append([{"k": "cpp_class", "doc": 1}, dict(cls), dict(at), {"k": "close"}, dict(ATTRS[1])])
     return jobs
 
 
